@@ -606,8 +606,11 @@ declaratortypes(struct scope *s, struct list *result, char **name, struct scope 
 				if (tok.kind == TRPAREN)
 					break;
 				d = parameter(s);
-				if (d->name)
+				if (d->name) {
+					if (scopegetdecl(s, d->name, false))
+						error(&tok.loc, "parameter '%s' redeclared", d->name);
 					scopeputdecl(s, d);
+				}
 				*paramend = d;
 				paramend = &d->next;
 				++t->u.func.nparam;
@@ -761,6 +764,8 @@ addmember(struct structbuilder *b, struct qualtype mt, char *name, int align, un
 	if (mt.type->prop & PROPVM)
 		error(&tok.loc, "struct member '%s' has variably modified type", name);
 	assert(mt.type->align > 0);
+	if (name && typemember(t, name, &(unsigned long long){0}))
+		error(&tok.loc, "duplicate member '%s'", name);
 	if (name || width == -1) {
 		m = xmalloc(sizeof(*m));
 		m->type = mt.type;
